@@ -138,7 +138,7 @@ def exec_case(case):
     X = np.array(case["X"], dtype=float)
     k = case["k"]
     est, fi = case["est"], case["fit_intercept"]
-    base = np.array(BASE_CLASSES[k][:X.shape[0]])
+    base = np.array(case["base"] if case.get("base") is not None else BASE_CLASSES[k][:X.shape[0]])
     labels = np.array(case["labels"], dtype=case["dtype"])
     P = eval_points(X, saturated=(k == 2))     # OvR normalisation sigma(d_k) / sum_j sigma(d_j) is 0/0 when every class saturates
     y = labels[base]
@@ -191,24 +191,51 @@ def exec_case(case):
     return out, d0
 
 
+NCHUNK = 8
+
+
 def plan(tier, seed):
-    return [dict(op="clf", est=e, weight=3) for e in ESTS]
+    if tier == "quick":
+        return [dict(op="clf", est=e, weight=3) for e in ESTS]
+    return [dict(op="clf", est=e, chunk=c, weight=3) for e in ESTS for c in range(NCHUNK)]
 
 
-def cases(est, tier):
+def assignments(k, n):
+    """Every assignment of n samples to exactly k classes, up to renaming the classes (restricted growth strings)."""
+    def rec(prefix, used):
+        if len(prefix) == n:
+            if used == k:
+                yield list(prefix)
+            return
+        for c in range(min(used + 1, k)):
+            yield from rec(prefix + [c], max(used, c + 1))
+    return list(rec([], 0))
+
+
+def cases(est, tier, chunk=None):
+    i = 0
     for xid, X in DESIGNS:
+        n = X.shape[0]
         for k in (2, 3, 4):
-            if X.shape[0] < 2 * k:
+            if n < 2 * k:
                 continue
-            for lname, labels in label_sets(k):
-                for fi in ((True, False) if est in ("SparseLogisticRegression", "GLE-Logistic") else (False,)):
-                    yield dict(est=est, fit_intercept=fi, X=X.tolist(), k=k, labels=labels.tolist(), dtype=str(labels.dtype), lname=lname, xid=xid)
+            # thorough: every class assignment of the 6 samples (k <= 3); the fixed one otherwise
+            bases = [None] if (tier == "quick" or n > 6 or k > 3) else assignments(k, n)
+            for base in bases:
+                sets = label_sets(k) if base is None else label_sets(k)[:2]
+                for lname, labels in sets:
+                    for fi in ((True, False) if est in ("SparseLogisticRegression", "GLE-Logistic") else (False,)):
+                        i += 1
+                        if chunk is not None and i % NCHUNK != chunk:
+                            continue
+                        yield dict(est=est, fit_intercept=fi, X=X.tolist(), k=k, labels=labels.tolist(), dtype=str(labels.dtype), lname=lname, xid=xid,
+                                   base=base)
 
 
 def run(task, ctx):
     est = task["est"]
     n = 0
-    for case in cases(est, ctx.tier):
+    for case in cases(est, ctx.tier, task.get("chunk")):
         v, d0 = exec_case(case)
         n += 1
         ctx.count("label_configurations")
